@@ -285,7 +285,7 @@ def sc4(F, R):
             if t["k"] == "assert" and t["kind"] == "bounds" and not t.get("exp"):
                 n += 1
                 R.bad("SC4", "SC4/%s/slice-index" % fn_key(b), b.where((bi, 0)), "a vector/slice is indexed with `[i]` on script-derived data (panics when out of range)")
-    R.floor("SC4", "panicking operations examined in the script closure", n, 8, root.where())
+    R.floor("SC4", "panicking operations examined in the script closure", n, 3, root.where())
     R.note("SC4: %d panicking operations, %d matched audited exceptions" % (n, audited))
 
 
